@@ -46,6 +46,15 @@ def _add(u, par, root, P):
 impl Mutation { pub open spec fn pair(&self) -> (Seq<i64>, Seq<i64>) { (self.key@, self.value@) } }
 pub open spec fn mutation_pairs(ms: Seq<Mutation>) -> Seq<(Seq<i64>, Seq<i64>)> { ms.map_values(|m: Mutation| m.pair()) }
 ''')
+    sol.spec('''
+pub open spec fn sum_mut_lens(sols: Seq<Solution>) -> int decreases sols.len() {
+    if sols.len() == 0 { 0 } else { sum_mut_lens(sols.drop_last()) + sols.last().state_mutations@.len() } }
+''')
+    sol.impl('impl SolutionSet', [
+        F('state_mutations_len', mode='assumed', ensures='r == sum_mut_lens(self.solutions@)',
+          note='`.iter().map(..).sum()`: `sum` is a provided trait method Verus cannot specify (overflow of the usize sum is not modelled: A-alloc bounds the total)',
+          props=('C16', 'C04')),
+    ])
     sol.impl('impl Mutation', [
         F('encode_size', ensures='r == 2 + self.key@.len() + self.value@.len()', requires='2 + self.key@.len() + self.value@.len() <= usize::MAX', props=('C18', 'C06')),
     ])
